@@ -123,6 +123,12 @@ class MustWrite:
             if lhs is not None and lhs.get("k") == "member" and (lhs.get("base") is None or
                                                                  lhs["base"].get("k") == "this"):
                 out.add(lhs["name"])
+            # delegation to another method of the same object (an overload forwarding to its sibling)
+            if x.get("k") == "call" and x.get("ck") == "member" and depth < 4 and \
+                    (x.get("recv") is None or x["recv"].get("k") == "this"):
+                for t in self.CG.targets(x):
+                    if t.get("body") is not None and t is not fn:
+                        out |= self._this_writes(t.get("body"), depth + 1, t)
         return out
 
     def stmt(self, n, depth, fn):
